@@ -248,7 +248,7 @@ def arms_of(F, fn, adt_variants, subject_arg, roles=None, data_variants=()):
             s = ev["snap"][1] if len(ev.get("snap") or []) > 1 else None
             return bool(s and s[0] == "agg" and s[1] == "array" and s[5] and all(sym.is_c(x) for x in s[5]))
         return False
-    eng = sym.Engine(F, max_visits=3, max_depth=12, max_paths=6000, inline=inl)
+    eng = sym.Engine(F, max_visits=3, max_depth=12, max_paths=6000, inline=inl, models=sym.SLICE_MODELS)
     arms = {}
     bad = []
     for p in eng.run(fn):
